@@ -1,6 +1,6 @@
 ENGINES = [
     {'name': 'X', 'path': 'lib/xworker.py', 'kind_free_text': 'CrossHair 0.0.110 symbolic execution of the real Python functions (z3 decides every branch), one OS process per condition, vacuity twin per condition, plain-CPython replay of every counterexample',
-     'serves_properties': ['C01', 'C02', 'C04', 'C05', 'C06', 'C08', 'C09', 'C10', 'C11', 'C12', 'C13', 'C14', 'C15', 'C16', 'C17', 'C18', 'C19', 'C20']},
+     'serves_properties': ['C01', 'C02', 'C04', 'C05', 'C06', 'C07', 'C08', 'C09', 'C10', 'C11', 'C12', 'C13', 'C14', 'C15', 'C16', 'C17', 'C18', 'C19', 'C20']},
     {'name': 'Z', 'path': 'lib/zworker.py', 'kind_free_text': 'z3 sequence-theory queries over SHA-1 pre-image terms recorded by executing the real digest code on symbolic strings (lib/zsym.py); sat models replayed on the real functions with the real hashlib',
      'serves_properties': ['C02', 'C03', 'C07']},
 ]
@@ -93,12 +93,16 @@ CLAIMS = {
         design_ref='DESIGN.md section 4, C03',
         note='Partial: parser-level independence (paths, timestamps, listing order, PYTHONHASHSEED, parse order) needs whole-program runs and is outside; golden ids of test/black-box/stable-variant-ids are not re-run here.'),
     'C07': dict(
-        engine='Z',
-        technique='z3 collision / non-interference queries over the Build-Id pre-image recorded from the real StepIR.getDigestCoro(fingerprint, platform, relaxTools=True)',
-        text='Within the shape bound: different source/argument ids, scripts, strong variables, strong tools (id, path, libs), fingerprint or platform never give the same Build-Id pre-image; the variant of a weakly used '
-             'tool does not enter it. Part of the property only: the download decision logic (_downloadPackage, restart on wrong live-build-id prediction) is not covered yet.',
+        engine='Z+X',
+        technique='z3 collision / non-interference queries over the Build-Id pre-image recorded from the real StepIR.getDigestCoro(fingerprint, platform, relaxTools=True); CrossHair+z3 enumeration of upload / download '
+                  'histories through real in-process bob dev invocations with a real file archive (real LocalArchive, TarHelper, _downloadPackage) and the deterministic script model',
+        text='(1) Within the shape bound: different source/argument ids, scripts, strong variables, strong tools (id, path, libs), fingerprint or platform never give the same Build-Id pre-image; the variant of a weakly used '
+             'tool does not enter it. (2) A workspace populates a file archive; after any of 11 edits a second invocation runs in a fresh workspace at another location or in the same one with download mode no/yes/deps '
+             '(upload on/off), then a third one (edit reverted or not, any download mode), optionally aborted by a failing step (quick: package steps) and repeated with any download mode: after every completed invocation '
+             'each package that was produced, downloaded or declared up to date equals the purely local clean build of that project state, and with identical recipes at another location and --download=yes no build or package step is executed.',
         design_ref='DESIGN.md section 4, C07',
-        note='Trusted: SHA-1 injectivity. Outside: archive transports, fingerprint script execution, download decision code.'),
+        note='Trusted: SHA-1 injectivity, the script model. Outside: live-build-id prediction and the restart after a wrong prediction (seeded change C07-m2 is not detected), forced download modes, packages= / layer modes, '
+             'other transports, fingerprint script execution, emulated host fingerprints.'),
     'C11': dict(
         engine='X',
         technique='bounded symbolic histories / entry pairs (CrossHair+z3 choose modifications and entry attributes) through the real DirHasher and FileIndex on a stub file system',
